@@ -112,6 +112,7 @@ type vhlcRig struct {
 	mgr     *LoadBalancedManager
 	srv     *Server
 	ln      net.Listener
+	stragglers []net.Conn
 	addr    string
 	start   time.Time
 	conns   map[string]*vhlcConn
@@ -722,8 +723,21 @@ func (r *vhlcRig) apply(op vhlcOp) (ob vhlcObs) {
 		}
 		nsessTarget = -1
 		ob.Res = "ok"
+	case "straggler":
+		// a client that has connected to the upstream port and sent only part of its request (a slow handshake, a load
+		// balancer probe): for net/http it is an active connection, so a graceful shutdown cannot finish while it is there
+		if sc, err := net.Dial("tcp", r.addr); err == nil {
+			_, _ = sc.Write([]byte("GET /piko/v1/upstream/straggler HTTP/1.1\r\nHost: straggler\r\nX-Slow: "))
+			r.stragglers = append(r.stragglers, sc)
+			time.Sleep(30 * time.Millisecond)
+		}
+		ob.Res = "ok"
 	case "server_shutdown":
-		ctx, cancel := context.WithTimeout(context.Background(), 3*time.Second)
+		grace := 3 * time.Second
+		if op.Ms > 0 {
+			grace = time.Duration(op.Ms) * time.Millisecond
+		}
+		ctx, cancel := context.WithTimeout(context.Background(), grace)
 		err := r.srv.Shutdown(ctx)
 		cancel()
 		if err != nil {
@@ -771,6 +785,9 @@ func (r *vhlcRig) apply(op vhlcOp) (ob vhlcObs) {
 }
 
 func (r *vhlcRig) teardown() {
+	for _, sc := range r.stragglers {
+		_ = sc.Close()
+	}
 	r.mu.Lock()
 	conns := make([]*vhlcConn, 0, len(r.conns))
 	for _, c := range r.conns {
